@@ -388,6 +388,11 @@ func recoverAt(self, run1, hf string, ops []fsop, k int, sum *vhlib.Summary, h h
 	of := filepath.Join(filepath.Dir(run1), "recovered.json")
 	_ = os.Remove(of)
 	rc, out := run(90*time.Second, self, "worker", "recover", run1, hf, of, strconv.Itoa(total+1))
+	// second crash generation (the recovering process flushed two more events and is killed in turn)
+	rc2 := 0
+	if rc == 0 {
+		rc2, _ = run(90*time.Second, self, "worker", "again", run1, hf, of)
+	}
 	var rec recovered
 	ob, _ := os.ReadFile(of)
 	_ = json.Unmarshal(ob, &rec)
@@ -481,6 +486,11 @@ func recoverAt(self, run1, hf string, ops []fsop, k int, sum *vhlib.Summary, h h
 		if !intsEq(want, rec.After) {
 			sum.Fail("later_ingest_disturbs_recovered_data", fmt.Sprintf("crash point %d: visible before %v, after ingesting 2 more events %v", k, rec.IDs, rec.After), c)
 		}
+	}
+	if rc2 != 0 || rec.AgainErr != "" {
+		sum.Fail("startup_fails_after_second_crash", fmt.Sprintf("crash point %d: second restart rc=%d err=%q", k, rc2, rec.AgainErr), c)
+	} else if rec.AfterErr == "" && !intsEq(rec.After, rec.Again) {
+		sum.Fail("completed_flush_lost_after_second_crash", fmt.Sprintf("crash point %d: after recovery + further ingest + flush the searchable ids were %v; after the next restart they are %v", k, rec.After, rec.Again), c)
 	}
 	return rec.IDs, true
 }
